@@ -58,6 +58,16 @@ Faults == <<
   <<"malformed", "offset-syntax", "lw x10, %lo(4)(x9)">>,
   <<"malformed", "li-few", "li x5">>,
   <<"malformed", "constant", "KY = 4 4">>,
+  \* expressions Python itself refuses to evaluate (ValueError, ZeroDivisionError, TypeError, AttributeError, IndexError ...)
+  <<"malformed", "negative-shift", "addi x5, x5, 1 << (3 - 8)">>,
+  <<"malformed", "negative-shift-li", "li x5, 0xff << -1">>,
+  <<"malformed", "negative-shift-constant", "KW = 1 << -2">>,
+  <<"malformed", "negative-shift-data", "dw 4 >> -1">>,
+  <<"malformed", "divide-by-zero", "addi x5, x5, 7 // 0">>,
+  <<"malformed", "modulo-zero-constant", "KV = 7 % 0">>,
+  <<"malformed", "attribute", "addi x5, x5, F0.low">>,
+  <<"malformed", "subscript", "li x5, [4][1]">>,
+  <<"malformed", "call", "addi x5, x5, F0(1)">>,
   <<"noninteger", "float", "addi x5, x5, 1.5">>,
   <<"noninteger", "division", "KZ = 3 / 2">>,
   <<"noninteger", "data", "dw 2.5">>,
